@@ -3,7 +3,8 @@ import TinkVerif.Props.C19Class
     recorded defects still present. -/
 open TinkVerif.Gen.SliceFacts
 def showFact (f : Fact) : String := s!"{f.pkg} {f.fn} {f.kind} {f.what}"
-#eval IO.println s!"NOTE: slice facts={facts.length} scanned-packages={packagesScanned} allowed={allowed.length}"
-#eval (unexpected.map showFact).forM fun l => IO.println ("UNEXPECTED: slice-fact " ++ l)
-#eval ((facts.filter recordedDefects.contains).map showFact).forM fun l => IO.println ("DEFECT: slice-fact " ++ l)
-#eval ((allowed.filter fun p => !facts.contains p.1).map (showFact ·.1)).forM fun l => IO.println ("NOTE: stale allowance " ++ l)
+def showFactInfo (f : Fact) : String := s!"{f.pkg} {f.fn} {f.kind} {f.what}  [{f.info}]"
+#eval IO.println s!"NOTE: slice facts={facts.length} scanned-packages={packagesScanned} functions={functionsScanned} entry-points={entryPoints} resolved-call-sites={resolvedCallSites} allowed={allowed.length}"
+#eval (unexpected.map showFactInfo).forM fun l => IO.println ("UNEXPECTED: slice-fact " ++ l)
+#eval ((facts.filter fun f => recordedDefects.contains (key f)).map showFact).forM fun l => IO.println ("DEFECT: slice-fact " ++ l)
+#eval (staleAllowances.map fun (pkg, fn, kind, what, _) => s!"{pkg} {fn} {kind} {what}").forM fun l => IO.println ("NOTE: stale allowance " ++ l)
